@@ -171,6 +171,36 @@ def generate(tier, seed, ctx):
         else:
             x = 1.5
         R.append("c17.round %s %d" % (hx(x), d))
+    # carries (the rounded mantissa reaches 10^d), ties in the d-th digit +- a few ulp, neighbours of powers of ten: the
+    # laws (odd, idempotent, monotone) are judged BITWISE on the implementation; the model is compared where the
+    # rounding decision keeps its margin
+    def carry_value(kind):
+        d = rng.randint(1, 7)
+        e = rng.randint(-298, 298)
+        sg = rng.choice([-1.0, 1.0])
+        if kind == 0:
+            x = 10.0 ** e * (1 - rng.uniform(1e-9, 0.6) * 10.0 ** -d)
+        elif kind == 1:
+            x = (rng.randint(10 ** (d - 1), 10 ** d - 1) + 0.5) * 10.0 ** (e - d + 1)
+            for _ in range(rng.randint(0, 3)):
+                x = math.nextafter(x, rng.choice([0.0, math.inf]))
+        elif kind == 2:
+            x = 10.0 ** e
+            tgt = rng.choice([0.0, math.inf])
+            for _ in range(rng.randint(0, 3)):
+                x = math.nextafter(x, tgt)
+        else:
+            x = 10.0 ** e * (1 - (0.5 + rng.choice([-1, 1]) * 10.0 ** -rng.randint(1, 14)) * 10.0 ** -d)
+        return sg * x, d
+    for k in range(2400 if thorough else 600):
+        x, d = carry_value(k % 4)
+        R.append("c17.round %s %d" % (hx(x), d))
+    for k in range(240 if thorough else 60):
+        d = rng.randint(1, 7)
+        R.append("c17.roundV %s %d" % (lst([carry_value(rng.randrange(4))[0] for _ in range(rng.randint(1, 5))]), d))
+    for d in range(1, 8):
+        for rep in range(36 if thorough else 8):
+            R.append("c17.roundscan %d %d %d %s %d" % (d, rng.randint(-298, 298), 200, hx(rng.random()), rng.choice([-1, 1])))
     for (x, d) in [(2.5, 1), (3.5, 1), (-2.5, 1), (1.25, 2), (0.0, 1), (0.0, 9), (1.0, 8), (123.0, 8), (5.0, 0), (1000.0, 1), (1000.0, 3), (999.0, 2), (9.5, 1),
                    (99.5, 2), (1e22, 3), (1e-22, 3), (1.0, 7), (123456789.0, 7)]:
         R.append("c17.round %s %d" % (hx(x), d))
@@ -421,17 +451,23 @@ def compare(rq, impl, model, ctx):
         r, rneg, rr = fl(ti[0]), fl(ti[1]), fl(ti[2])
         m = fr(tm[0])
         q = Fraction(x)
-        if rneg != -r and not (r == 0 and rneg == 0):
+        # the laws are exact statements about the implementation: bit for bit
+        if not (rneg == -r):
             out.append(fail("prop", "Round is not odd", "Round(%r,%d)=%r Round(-x)=%r" % (x, d, r, rneg)))
-        if not close(rr, Fraction(r), Fraction(r), 4):
-            out.append(fail("prop", "Round is not idempotent", "Round(%r,%d)=%r, rounded again %r" % (x, d, r, rr)))
+        if not (rr == r):
+            out.append(fail("prop", "Round is not idempotent", "Round(%r,%d)=%r (%s), rounded again %r (%s)" % (x, d, r, ti[0], rr, ti[2])))
         if q != 0:
             half = Fraction(10) ** (expo10(q) - d + 1) / 2
-            if math.isnan(r) or abs(Fraction(r) - q) > half * (1 + Fraction(1, 2 ** 30)):
+            # away from a tie the bound is the statement's; AT a tie of the d-th digit (within 2^-40) the double product
+            # prefactor*10^(d-1) decides the direction, which costs at most the rounding of that arithmetic (4 ulp of x)
+            bound = half * (1 + Fraction(1, 2 ** 30)) if round_margin_ok(x, d) else half + 4 * EPS * abs(q)
+            if math.isnan(r) or abs(Fraction(r) - q) > bound:
                 out.append(fail("prop", "Round(x,d) is farther than half a unit of the d-th significant digit from x", "Round(%r,%d)=%r" % (x, d, r)))
         elif r != 0:
             out.append(fail("prop", "Round(0) is not 0", repr(r)))
-        if not close(r, m, m, 16):
+        if not round_margin_ok(x, d):
+            ctx["excused"] += 1      # knife-edge of floor(p + 0.5) in double arithmetic: the model is not compared
+        elif not close(r, m, m, 16):
             out.append(fail("corr", "Round differs from the model", "Round(%r,%d)=%r model %r" % (x, d, r, float(m))))
         ctx["round_results"].append((d, x, r))
         ctx["nontrivial"].add((op, d, expo10(q) // 20 if q else None, q < 0))
@@ -443,8 +479,16 @@ def compare(rq, impl, model, ctx):
         mm = [fr(t) for t in tm[1:]]
         if n != int(tm[0]) or len(mt) != n:
             out.append(fail("prop", "Round(Vector/Matrix) changes the shape", ""))
-        elif any(not close(x_, m_, m_, 16) for x_, m_ in zip(v, mm)) or v != mt:
-            out.append(fail("corr", "Round(Vector)/Round(Matrix) differ from the element-wise model", "%r %r" % (v, mt)))
+        else:
+            xs_ = read_floats(a)
+            dd = int(a[-1])
+            if v != mt:
+                out.append(fail("prop", "Round(Vector) and Round(Matrix) differ on the same numbers", "%r %r" % (v, mt)))
+            elif all(round_margin_ok(x_, min(dd, 7)) for x_ in xs_) and any(not close(x_, m_, m_, 16) for x_, m_ in zip(v, mm)):
+                out.append(fail("corr", "Round(Vector)/Round(Matrix) differ from the element-wise model", "%r %r" % (v, mt)))
+            again = [fl(t) for t in ti[1 + 2 * n:1 + 4 * n]]
+            if len(again) == 2 * n and (again[:n] != v or again[n:] != mt):
+                out.append(fail("prop", "Round is not idempotent", "Round(Vector/Matrix, %d) of %r = %r, rounded again %r" % (dd, xs_, v, again[:n])))
         ctx["nontrivial"].add((op, n))
         return out
     if op in ("c17.dawson", "c17.erfi"):
@@ -495,6 +539,8 @@ def compare(rq, impl, model, ctx):
                         out.append(fail("corr", "Erfi differs from the model 2/sqrt(pi) exp(x^2) Dawson(x)", "Erfi(%r)=%r model %s" % (x, v, M.nstr(mm, 17))))
             ctx["nontrivial"].add((op, int(abs(x)), x < 0))
         return out
+    if op == "c17.roundscan":
+        return scan_round(a, ti, ctx)
     if op == "c17.premain":
         return cmp_premain(ti, ctx)
     if op == "c17.vshhold":
@@ -601,6 +647,44 @@ def compare(rq, impl, model, ctx):
                 l, m, th, ph, vec, [M.nstr(r, 10) for r in ref])))
         return out
     return [fail("corr", "unknown op " + op)]
+
+
+def read_floats(a):
+    n = int(a[0])
+    return [fl(t) for t in a[1:1 + n]]
+
+
+def scan_round(a, ti, ctx):
+    """bitwise laws of Round on a dense family of carries; monotone along the scan"""
+    out = []
+    d = int(a[0])
+    pts = [(fl(ti[i]), fl(ti[i + 1]), fl(ti[i + 2]), fl(ti[i + 3]), ti[i + 1], ti[i + 3]) for i in range(0, len(ti) - 3, 4)]
+    bump(ctx, "roundscan points", len(pts))
+    bad_i = [p for p in pts if not (p[3] == p[1])]
+    bad_o = [p for p in pts if not (p[2] == -p[1])]
+    if bad_i:
+        p = bad_i[0]
+        out.append(fail("prop", "Round is not idempotent", "%d of %d scanned carries; first: Round(%r,%d)=%r (%s), rounded again %r (%s)" % (
+            len(bad_i), len(pts), p[0], d, p[1], p[4], p[3], p[5])))
+    if bad_o:
+        p = bad_o[0]
+        out.append(fail("prop", "Round is not odd", "Round(%r,%d)=%r Round(-x)=%r" % (p[0], d, p[1], p[2])))
+    srt = sorted(pts)
+    for p1, p2 in zip(srt, srt[1:]):
+        if p1[0] < p2[0] and p1[1] > p2[1]:
+            out.append(fail("prop", "Round is not monotone", "d=%d: Round(%r)=%r > Round(%r)=%r" % (d, p1[0], p1[1], p2[0], p2[1])))
+            break
+    q = Fraction(pts[0][0]) if pts else Fraction(0)
+    for p in pts:
+        qq = Fraction(p[0])
+        half = Fraction(10) ** (expo10(qq) - d + 1) / 2
+        if abs(Fraction(p[1]) - qq) > (half * (1 + Fraction(1, 2 ** 30)) if round_margin_ok(p[0], d) else half + 4 * EPS * abs(qq)):
+            out.append(fail("prop", "Round(x,d) is farther than half a unit of the d-th significant digit from x", "Round(%r,%d)=%r" % (p[0], d, p[1])))
+            break
+    for p in pts:
+        ctx["round_results"].append((d, p[0], p[1]))
+    ctx["nontrivial"].add(("roundscan", d, int(a[1]) // 50, a[4]))
+    return out
 
 
 def cmp_premain(ti, ctx):
@@ -728,7 +812,7 @@ def finalize(ctx, exe):
     for d, l in by_d.items():
         l.sort()
         for (x1, r1), (x2, r2) in zip(l, l[1:]):
-            if r1 > r2 and not close(r1, Fraction(r2), Fraction(r2), 4):
+            if x1 < x2 and r1 > r2:      # bitwise: no slack
                 f = fail("prop", "Round is not monotone", "d=%d: Round(%r)=%r > Round(%r)=%r" % (d, x1, r1, x2, r2))
                 f["req"] = "c17.round %s %d" % (hx(x2), d)
                 out.append(f)
